@@ -7,7 +7,7 @@ from harness.props.c07 import pre_build
 from bip_utils import (Bip44, Bip44Coins, Bip44Changes, Bip32KeyData, Bip32KeyNetVersions, ElectrumV1, ElectrumV2Standard, Secp256k1PrivateKey,
                        Bip32KeyError)
 
-LEAN_MODULES = ["BipVerif.Props.C04"]
+LEAN_MODULES = ["BipVerif.Props.C04", "BipVerif.Props.C04Group"]
 from harness.props import c19 as _c19
 IMPL = {"derive": B32["derive"], "childpub": B32["childpub"], "kholawderive": C18["kholawderive"], "kholawraw": C18["kholawraw"],
         "fromxkey": B32["fromxkey"], "substrate": _c19.IMPL["substrate"]}
